@@ -55,7 +55,8 @@ Record field := {
   f_name : str; f_stored : bool; f_dv : bool; f_typ : N; f_val : str; f_ap : list N;
   f_len : N; f_toks : list tok;
   f_syn : list syndef;           (* non-empty only for synonym fields of synonym documents *)
-  f_vec : option vecdef }.
+  f_vec : option vecdef;
+  f_shape : option str }.        (* geo-shape fields: the encoded shape, an extra doc value *)
 Record doc := { d_comps : list field; d_fields : list field }.
 Definition batch := list doc.
 
@@ -137,9 +138,17 @@ Definition spec_stored_doc (fs : list str) (d : doc) : list sval :=
 (* ---------- C03: doc values ---------- *)
 Definition is_dv_field (b : batch) (f : str) : bool :=
   existsb (fun d => existsb (fun i => f_dv i && seqb (f_name i) f) (all_fields d)) b.
+(* the encoded shape of the document's geo-shape field f: the last instance that carries one *)
+Definition doc_shape (d : doc) (f : str) : option str :=
+  fold_left (fun acc i => match f_shape i with Some sh => if seqb (f_name i) f then Some sh else acc | None => acc end)
+            (d_fields d) None.
 Definition spec_dv_field (b : batch) (f : str) : list (N * list str) :=
   flat_map (fun nd => match doc_tfs (snd nd) f with
-                      | Some (_, (_ :: _) as tfs) => [(fst nd, map fst tfs)]
+                      | Some (_, (_ :: _) as tfs) =>
+                          [(fst nd, match doc_shape (snd nd) f with
+                                    | Some sh => sins sh (map fst tfs)     (* one more doc value *)
+                                    | None => map fst tfs
+                                    end)]
                       | _ => []
                       end) (indexed b).
 
